@@ -12,7 +12,7 @@ import (
 
 // R14.1 + R14.2
 var ruleExtend = &core.Rule{ID: "R14.1", Min: 6,
-	Doc: "Extend builds a fresh node from its own parameters (detector, type, extension, aliases, parent = receiver) and publishes it as [new] ++ old children by one store under the write lock, writing nothing else; the package-level Extend calls it on the root with its own parameters in order",
+	Doc: "Extend builds a fresh node from its own parameters (detector, type, extension, aliases, parent = receiver) and publishes it as [new] ++ old children (append of a one-element literal, or make(len+1), store at 0, copy to [1:]) by one store under the write lock; the node may come from a constructor whose stores are mapped back to Extend's arguments, writing nothing else; the package-level Extend calls it on the root with its own parameters in order",
 	Run: func(c *core.Ctx, s *core.Sink) {
 		m := getWalk(c)
 		cm := getConc(c)
@@ -291,7 +291,7 @@ var ruleExtend = &core.Rule{ID: "R14.1", Min: 6,
 
 // R14.4 / R15.3
 var ruleLookup = &core.Rule{ID: "R14.4", Min: 4,
-	Doc: "lookup compares the requested name with the node's type and with every alias (exact equality), descends into every child in order, returns the first hit and nil otherwise",
+	Doc: "lookup compares the requested name with the node's type and with every alias (exact equality; inline, through a verified helper, or slices.Contains), descends into every child in order, returns the first hit and nil otherwise",
 	Run: func(c *core.Ctx, s *core.Sink) {
 		m := getWalk(c)
 		f := m.lookup
@@ -580,7 +580,7 @@ func retOf(b *ssa.BasicBlock) *ssa.Return {
 
 // R15.1
 var ruleEquality = &core.Rule{ID: "R15.1", Min: 4,
-	Doc: "in Is and EqualsAny both operands of every string equality are first results of mime.ParseMediaType (of the argument / of the node's type / of each candidate), except alias operands, which are compared with the normalised argument; every alias and every candidate is visited; a match returns true, exhaustion false",
+	Doc: "in Is and EqualsAny both operands of every string equality are first results of mime.ParseMediaType (directly or through a helper returning exactly that) (of the argument / of the node's type / of each candidate), except alias operands, which are compared with the normalised argument; every alias and every candidate is visited; a match returns true, exhaustion false",
 	Run: func(c *core.Ctx, s *core.Sink) {
 		m := getWalk(c)
 		cm := getConc(c)
